@@ -1180,7 +1180,7 @@ impl Engine for StorageEngine {
             level: "fault_enumeration",
             evaluations: stats.get("evaluations"),
             distinct_nontrivial: stats.distinct("cases"),
-            rule: "artefacts are produced by the real tool-chain (plutus.json of generated projects built silent and verbose, their compiled code as hex / CBOR / flat / pretty text, conformance programs, shipped .ak sources and aiken.toml files, parameter CBOR); runs walk the artefact corpus round-robin; each case applies 1-3 storage faults (truncate, bit flip, stuck byte, zeroed / duplicated / deleted range, swapped blocks, appended garbage, torn write between the two builds), half of the positions biased into compiledCode / hash / $ref values, and feeds the bytes to the consumer the tool uses for that file plus the next consumer down the chain, on an 8 MiB stack; thorough additionally enumerates every truncation point and every single-bit flip of artefacts up to 4 KiB. distinct = distinct (artefact, corrupted bytes); non-trivial = the fault changed the bytes".into(),
+            rule: "artefacts are produced by the real tool-chain (plutus.json of generated projects built silent and verbose, their compiled code as hex / CBOR / flat / pretty text, conformance programs, shipped .ak sources and aiken.toml files, parameter CBOR); runs walk the artefact corpus round-robin; each case applies 1-3 storage faults (truncate, bit flip, stuck byte, zeroed / duplicated / deleted range, swapped blocks, appended garbage, torn write between the two builds, duplicated / deleted / moved lines, one character read back as a multi-byte character), half of the positions biased into compiledCode / hash / $ref values, some aligned to a quoted string, an escape sequence or a comment line, and feeds the bytes to the consumer the tool uses for that file plus the next consumer down the chain, on an 8 MiB stack; thorough additionally enumerates every truncation point and every single-bit flip (text: also U+FFFD at every character) of artefacts up to 4 KiB. The last 27 runs are the nesting workload: plain inputs of at most 48 KiB that only nest deeply, one per shape, each fed to the same consumers in a child process on an 8 MiB stack (48 levels under a 20 s bound judged on time; the deep rungs judged on crashes only). distinct = distinct (artefact, corrupted bytes); non-trivial = the fault changed the bytes".into(),
             extra: json!({
                 "fault_kinds_applied": faults,
                 "faults_that_changed_nothing": stats.get("fault_changed_nothing"),
@@ -1197,6 +1197,17 @@ impl Engine for StorageEngine {
                     "chunks_of_2500_cases": stats.get("exhaustive_chunks"),
                     "space": "every truncation point and every single-bit flip of every artefact of at most 4096 bytes",
                 },
+                "nesting_workload": {
+                    "shapes": NEST_SHAPES.len(),
+                    "shapes_run": stats.get("nest_shapes_run"),
+                    "child_process_cases": stats.get("nest_cases"),
+                    "minimisation_cases": stats.get("nest_minimisation_cases"),
+                    "hangs_at_48_levels": stats.get("nest_hangs"),
+                    "crashes_on_deep_rungs": stats.get("nest_crashes"),
+                    "slow_on_deep_rungs_not_judged": stats.get("nest_slow_not_judged"),
+                    "input_cap_bytes": NEST_CAP,
+                    "note": "input construction, not fault injection; the simulator contributes process isolation, the wall bound and replay",
+                },
                 "exhaustive": false,
                 "unfaulted_artefacts_not_accepted": stats.notes.get("artefact_not_accepted_unfaulted"),
                 "components": {
@@ -1206,7 +1217,8 @@ impl Engine for StorageEngine {
                 }
             }),
             assumptions: vec![
-                "only the storage-fault subset of C20 is claimed: near-valid inputs that truncation, bit rot, torn or misplaced writes produce; adversarially constructed inputs (10^4-deep nesting, grammar-aware garbage) are outside this family".into(),
+                "only the storage-fault subset of C20 is claimed, plus deep nesting of otherwise plain inputs: near-valid inputs that truncation, bit rot, torn or misplaced writes produce; other adversarially constructed inputs (grammar-aware garbage) are outside this family".into(),
+                "a stack overflow is judged on an 8 MiB stack (the CLI's main thread); rayon workers, which parse project sources, have 2 MiB and overflow sooner".into(),
                 "the verdict is taken in the profile aiken ships (no overflow checks / debug assertions): an arithmetic overflow that would panic only in a debug build is not counted".into(),
                 "invalid UTF-8 is rejected by fs::read_to_string before a text decoder sees it; such cases are counted, not fed".into(),
             ],
